@@ -175,6 +175,10 @@ class Engine:
         self.filterer = filtering.filterer_connector.get()
         self.known_open = set((k["clause"], k["key"]) for k in runner.load_known()
                               if k.get("status") == "open" and k["property"] == "C19")
+        from annet import rulebook
+        from annet.annlib.netdev.views.hardware import HardwareView
+        for soft in SOFTS:
+            rulebook.get_rulebook(HardwareView("PC", soft))
 
     @contextlib.contextmanager
     def _captured(self):
